@@ -39,32 +39,701 @@ def isWaterRec : Rec → Bool
   | .atom a => isWaterName a.resName
   | _ => false
 
+/-! ### reading -/
+
+theorem atomsOf_append (a b : List Rec) : atomsOf (a ++ b) = atomsOf a ++ atomsOf b := by
+  induction a with
+  | nil => rfl
+  | cons r a ih => cases r <;> simp [atomsOf, ih]
+
+theorem readLoop_spec (lines : List Str)
+    (h : ∀ l ∈ lines, isAtomLine (strip l) = true → ∃ a, parseLine (strip l) = some a) :
+    ∀ m acc, ∃ recs, readLoop lines m acc = .ok (acc.reverse ++ recs) ∧
+      atomsOf recs = lines.filterMap (fun l => if isAtomLine (strip l) then parseLine (strip l) else none) := by
+  induction lines with
+  | nil => intro m acc; exact ⟨[], by simp [readLoop], rfl⟩
+  | cons raw rest ih =>
+    intro m acc
+    have hraw := h raw List.mem_cons_self
+    have ih' := ih (fun l hl => h l (List.mem_cons_of_mem _ hl))
+    rw [readLoop]
+    simp only [List.filterMap_cons]
+    by_cases hb : strip raw = []
+    · have : isAtomLine (strip raw) = false := by rw [hb]; decide
+      simp only [hb, if_true]
+      exact ih' m acc
+    · simp only [hb, if_false]
+      by_cases ha : isAtomLine (strip raw) = true
+      · obtain ⟨a, hpa⟩ := hraw ha
+        have hrec := ha
+        unfold isAtomLine at hrec
+        simp only [hrec, if_true, ha, hpa]
+        unfold parseLine at hpa
+        split at hpa
+        · rename_i a' hok
+          cases hpa
+          simp only [hok]
+          obtain ⟨recs, h1, h2⟩ := ih' m (.atom a :: acc)
+          refine ⟨.atom a :: recs, ?_, ?_⟩
+          · rw [h1]; simp
+          · simp [atomsOf, h2]
+        · cases hpa
+      · have hrec := ha
+        unfold isAtomLine at hrec
+        simp only [hrec, ha]
+        simp only [Bool.false_eq_true, if_false]
+        have key : ∀ r : Rec, (∀ a, r ≠ .atom a) → ∃ recs, readLoop rest m (r :: acc) = Except.ok (acc.reverse ++ recs) ∧
+            atomsOf recs = List.filterMap (fun l => if isAtomLine (strip l) = true then parseLine (strip l) else none) rest := by
+          intro r hr
+          obtain ⟨recs, h1, h2⟩ := ih' m (r :: acc)
+          refine ⟨r :: recs, ?_, ?_⟩
+          · rw [h1]; simp
+          · cases r <;> simp_all [atomsOf]
+        split
+        · exact key _ (by intro a; simp)
+        split
+        · exact key _ (by intro a; simp)
+        split
+        · exact key _ (by intro a; simp)
+        · exact key _ (by intro a; simp)
+
 theorem read_every_atom_line_core (lines : List Str)
     (h : ∀ l ∈ lines, isAtomLine (strip l) = true → ∃ a, parseLine (strip l) = some a) :
     ∃ recs, readPdb lines = .ok recs ∧
       atomsOf recs = lines.filterMap (fun l => if isAtomLine (strip l) then parseLine (strip l) else none) := by
-  sorry
+  obtain ⟨recs, h1, h2⟩ := readLoop_spec lines h false []
+  exact ⟨recs, by simpa [readPdb] using h1, h2⟩
+
+/-! ### trailing columns -/
+
+theorem slice_take (l : Str) (a b n : Nat) (h : b ≤ n) : slice (l.take n) a b = slice l a b := by
+  unfold slice
+  rw [List.drop_take, List.take_take]
+  congr 1; omega
+
+theorem idx_take (l : Str) (i n : Nat) (h : i < n) : idx (l.take n) i = idx l i := by
+  unfold idx
+  rw [List.drop_take]
+  cases hd : l.drop i with
+  | nil => simp
+  | cons c t =>
+    have : n - i = (n - i - 1) + 1 := by omega
+    rw [this, List.take_succ_cons]
 
 theorem short_line_same_core (het : Bool) (l : Str) (n : Nat) (hn : 54 ≤ n) :
     parseAtom het (l.take n) = parseAtom het l := by
-  sorry
+  unfold parseAtom
+  rw [slice_take l 6 11 n (by omega), slice_take l 12 16 n (by omega), slice_take l 17 20 n (by omega),
+    slice_take l 22 26 n (by omega), slice_take l 30 38 n (by omega), slice_take l 38 46 n (by omega),
+    slice_take l 46 54 n (by omega), slice_take l 0 6 n (by omega),
+    idx_take l 16 n (by omega), idx_take l 21 n (by omega), idx_take l 26 n (by omega)]
+
+/-! ### grouping -/
+
+abbrev Chains := List (Str × List (List AtomRec))
+def keys (cs : Chains) : List Str := cs.map (·.1)
+def ccontent (cs : Chains) : List AtomRec := (cs.flatMap (·.2)).flatten
+def content (s : GState) : List AtomRec := ccontent s.chains ++ s.residue
+
+@[simp] theorem ccontent_nil : ccontent [] = [] := rfl
+@[simp] theorem ccontent_cons (k : Str) (rs : List (List AtomRec)) (cs : Chains) :
+    ccontent ((k, rs) :: cs) = rs.flatten ++ ccontent cs := by
+  simp [ccontent]
+@[simp] theorem keys_nil : keys [] = [] := rfl
+@[simp] theorem keys_cons (k : Str) (rs : List (List AtomRec)) (cs : Chains) :
+    keys ((k, rs) :: cs) = k :: keys cs := rfl
+
+theorem ccontent_append (a b : Chains) : ccontent (a ++ b) = ccontent a ++ ccontent b := by
+  simp [ccontent]
+
+theorem any_key (cs : Chains) (c : Str) : cs.any (·.1 = c) = true ↔ c ∈ keys cs := by
+  simp [keys, List.any_eq_true]
+
+theorem keys_addChain_mem (cs : Chains) (c : Str) : c ∈ keys (addChain cs c) := by
+  unfold addChain
+  split
+  · rename_i h; exact (any_key cs c).mp h
+  · simp [keys]
+
+theorem keys_addChain_sub (cs : Chains) (c k : Str) (h : k ∈ keys cs) : k ∈ keys (addChain cs c) := by
+  unfold addChain
+  split
+  · exact h
+  · simp only [keys, List.map_append, List.mem_append]; exact Or.inl h
+
+theorem keys_addChain_nodup (cs : Chains) (c : Str) (h : (keys cs).Nodup) : (keys (addChain cs c)).Nodup := by
+  unfold addChain
+  split
+  · exact h
+  · rename_i hn
+    have hn' : c ∉ keys cs := fun hc => hn ((any_key cs c).mpr hc)
+    simp only [keys, List.map_append, List.map_cons, List.map_nil]
+    rw [List.nodup_append]
+    refine ⟨h, by simp, ?_⟩
+    intro a ha b hb
+    simp at hb
+    subst hb
+    intro hab
+    subst hab
+    exact hn' ha
+
+theorem ccontent_addChain (cs : Chains) (c : Str) : ccontent (addChain cs c) = ccontent cs := by
+  unfold addChain
+  split
+  · rfl
+  · simp [ccontent_append]
+
+theorem keys_addResidue (cs : Chains) (c : Str) (r : List AtomRec) : keys (addResidue cs c r) = keys cs := by
+  induction cs with
+  | nil => rfl
+  | cons x cs ih =>
+    obtain ⟨k, rs⟩ := x
+    simp only [addResidue, List.map_cons, keys] at ih ⊢
+    rw [ih]
+    split <;> rfl
+
+theorem addResidue_not_mem (cs : Chains) (c : Str) (r : List AtomRec) (h : c ∉ keys cs) :
+    addResidue cs c r = cs := by
+  induction cs with
+  | nil => rfl
+  | cons x cs ih =>
+    obtain ⟨k, rs⟩ := x
+    simp only [keys_cons, List.mem_cons, not_or] at h
+    simp only [addResidue, List.map_cons] at ih ⊢
+    rw [ih h.2]
+    rw [if_neg (fun hk => h.1 hk.symm)]
+
+theorem ccontent_addResidue (cs : Chains) (c : Str) (r : List AtomRec) (hn : (keys cs).Nodup)
+    (hc : c ∈ keys cs) : (ccontent (addResidue cs c r)).Perm (ccontent cs ++ r) := by
+  induction cs with
+  | nil => simp at hc
+  | cons x cs ih =>
+    obtain ⟨k, rs⟩ := x
+    simp only [keys_cons, List.nodup_cons] at hn
+    have hstep : addResidue ((k, rs) :: cs) c r =
+        (if k = c then (k, rs ++ [r]) else (k, rs)) :: addResidue cs c r := by
+      simp [addResidue]
+    rw [hstep]
+    by_cases hk : k = c
+    · subst hk
+      rw [if_pos rfl, addResidue_not_mem cs k r hn.1]
+      simp only [ccontent_cons, List.flatten_append, List.flatten_cons, List.flatten_nil, List.append_nil,
+        List.append_assoc]
+      exact List.Perm.append_left _ List.perm_append_comm
+    · rw [if_neg hk]
+      simp only [keys_cons, List.mem_cons] at hc
+      have hc' : c ∈ keys cs := by
+        rcases hc with h | h
+        · exact absurd h.symm hk
+        · exact h
+      simp only [ccontent_cons, List.append_assoc]
+      exact List.Perm.append_left _ (ih hn.2 hc')
+
+structure GInv (s : GState) : Prop where
+  nodup : (keys s.chains).Nodup
+  prev : s.residue ≠ [] → ∃ p, s.prev = some p ∧ p.chain ∈ keys s.chains
+  stop : s.stopped = true → s.residue = []
+  models : s.stopped = false → s.numModels ≤ 1
+
+theorem flush_ok (s : GState) (p : AtomRec) (hp : s.prev = some p) (hr : s.residue ≠ []) :
+    flush s = .ok { s with chains := addResidue s.chains p.chain s.residue, residue := [] } := by
+  unfold flush
+  rw [hp]
+  simp only [hr, if_false]
+
+theorem flush_spec' (s : GState) (hn : (keys s.chains).Nodup)
+    (hp : ∃ p, s.prev = some p ∧ p.chain ∈ keys s.chains) (hr : s.residue ≠ []) :
+    ∃ s', flush s = .ok s' ∧ (keys s'.chains).Nodup ∧ s'.residue = [] ∧ s'.stopped = s.stopped ∧
+      s'.numModels = s.numModels ∧ s'.count = s.count ∧ (content s').Perm (content s) := by
+  obtain ⟨p, hp, hpc⟩ := hp
+  refine ⟨_, flush_ok s p hp hr, ?_, rfl, rfl, rfl, rfl, ?_⟩
+  · simp only [keys_addResidue]; exact hn
+  · simp only [content, List.append_nil]
+    exact ccontent_addResidue _ _ _ hn hpc
+
+/-- flushing an `GInv` state with a non-empty residue -/
+theorem flush_spec (s : GState) (hI : GInv s) (hr : s.residue ≠ []) :
+    ∃ s', flush s = .ok s' ∧ GInv s' ∧ s'.residue = [] ∧ s'.stopped = s.stopped ∧
+      s'.numModels = s.numModels ∧ s'.count = s.count ∧ (content s').Perm (content s) := by
+  obtain ⟨p, hp, hpc⟩ := hI.prev hr
+  refine ⟨_, flush_ok s p hp hr, ⟨?_, ?_, ?_, ?_⟩, rfl, rfl, rfl, rfl, ?_⟩
+  · simp only [keys_addResidue]; exact hI.nodup
+  · intro h; exact absurd rfl h
+  · intro _; rfl
+  · exact hI.models
+  · simp only [content, List.append_nil]
+    exact ccontent_addResidue _ _ _ hI.nodup hpc
+
+/-- the rest of the ATOM branch of `gstep` -/
+def atomStep (s : GState) (a : AtomRec) : Except RErr GState :=
+  let prev := s.prev.getD a
+  let s1 := { s with chains := addChain s.chains a.chain, prev := some prev }
+  do
+    let s2 ←
+      if s1.residue ≠ [] && (a.resSeq ≠ prev.resSeq || a.ins ≠ prev.ins || a.chain ≠ prev.chain) then flush s1
+      else pure s1
+    pure { s2 with residue := s2.residue ++ [a], prev := some a }
+
+theorem chainAlphabet_length : chainAlphabet.length = 62 := by decide
+
+theorem gstep_atom (n : Nat) (s : GState) (a0 : AtomRec) (hs : s.stopped = false) :
+    gstep n s (.atom a0) = atomStep s (relabel n s.count a0) ∨
+      (gstep n s (.atom a0) = .error .tooManyChains ∧ 62 ≤ s.count) := by
+  unfold gstep relabel
+  rw [if_neg (by simp [hs])]
+  simp only []
+  split
+  · cases hd : chainAlphabet.drop s.count with
+    | nil =>
+      right
+      refine ⟨rfl, ?_⟩
+      have := congrArg List.length hd
+      simp [chainAlphabet_length] at this
+      omega
+    | cons c t => left; rfl
+  · left; rfl
+
+theorem atomStep_spec (s : GState) (a : AtomRec) (hI : GInv s) (hs : s.stopped = false) :
+    ∃ s', atomStep s a = .ok s' ∧ GInv s' ∧ s'.stopped = false ∧ s'.numModels = s.numModels ∧
+      s'.count = s.count ∧ (content s').Perm (content s ++ [a]) := by
+  unfold atomStep
+  simp only
+  split
+  · rename_i hc
+    simp only [Bool.and_eq_true, decide_eq_true_eq] at hc
+    have hr : s.residue ≠ [] := hc.1
+    obtain ⟨p, hp, hpc⟩ := hI.prev hr
+    rw [flush_ok { s with chains := addChain s.chains a.chain, prev := some (s.prev.getD a) } (s.prev.getD a) rfl hr]
+    refine ⟨_, rfl, ⟨?_, ?_, ?_, ?_⟩, hs, rfl, rfl, ?_⟩
+    · simp only [keys_addResidue]; exact keys_addChain_nodup _ _ hI.nodup
+    · intro _
+      exact ⟨a, rfl, by simp only [keys_addResidue]; exact keys_addChain_mem _ _⟩
+    · intro h; simp only at h; rw [hs] at h; cases h
+    · intro _; exact hI.models hs
+    · simp only [content, List.nil_append]
+      have h1 := ccontent_addResidue (addChain s.chains a.chain) (s.prev.getD a).chain s.residue
+        (keys_addChain_nodup _ _ hI.nodup) (by rw [hp]; exact keys_addChain_sub _ _ _ hpc)
+      rw [ccontent_addChain] at h1
+      exact List.Perm.append_right _ h1
+  · refine ⟨_, rfl, ⟨?_, ?_, ?_, ?_⟩, hs, rfl, rfl, ?_⟩
+    · exact keys_addChain_nodup _ _ hI.nodup
+    · intro _
+      exact ⟨a, rfl, keys_addChain_mem _ _⟩
+    · intro h; simp only at h; rw [hs] at h; cases h
+    · intro _; exact hI.models hs
+    · simp only [content, ccontent_addChain, List.append_assoc]
+      exact List.Perm.refl _
+
+theorem gstep_stopped (n : Nat) (s : GState) (r : Rec) (hs : s.stopped = true) : gstep n s r = .ok s := by
+  unfold gstep
+  rw [if_pos hs]
+
+theorem foldlM_stopped (n : Nat) (recs : List Rec) (s : GState) (hs : s.stopped = true) :
+    recs.foldlM (gstep n) s = .ok s := by
+  induction recs with
+  | nil => rfl
+  | cons r rs ih =>
+    rw [List.foldlM_cons, gstep_stopped n s r hs]
+    exact ih
+
+theorem gstep_ter (n : Nat) (s : GState) (hs : s.stopped = false) :
+    gstep n s .ter = .ok { s with count := s.count + 1 } := by
+  unfold gstep
+  rw [if_neg (by simp [hs])]
+
+theorem gstep_other (n : Nat) (s : GState) (hs : s.stopped = false) :
+    gstep n s .other = .ok s := by
+  unfold gstep
+  rw [if_neg (by simp [hs])]
+
+theorem gstep_end (n : Nat) (s : GState) (hI : GInv s) (hs : s.stopped = false) :
+    ∃ s', gstep n s .end_ = .ok s' ∧ GInv s' ∧ s'.stopped = false ∧ s'.numModels = s.numModels ∧
+      s'.count = s.count ∧ (content s').Perm (content s) := by
+  unfold gstep
+  rw [if_neg (by simp [hs])]
+  simp only
+  split
+  · exact ⟨s, rfl, hI, hs, rfl, rfl, List.Perm.refl _⟩
+  · rename_i hr
+    obtain ⟨s', h1, h2, _, h4, h5, h6, h7⟩ := flush_spec s hI hr
+    exact ⟨s', h1, h2, h4.trans hs, h5, h6, h7⟩
+
+theorem gstep_model_first (n : Nat) (s : GState) (hs : s.stopped = false) (hm : s.numModels = 0) :
+    gstep n s .model = .ok { s with numModels := s.numModels + 1 } := by
+  unfold gstep
+  rw [if_neg (by simp [hs])]
+  simp only
+  rw [if_neg (by omega)]
+
+theorem gstep_model_stop (n : Nat) (s : GState) (hI : GInv s) (hs : s.stopped = false)
+    (hm : 1 ≤ s.numModels) :
+    ∃ s', gstep n s .model = .ok s' ∧ GInv s' ∧ s'.stopped = true ∧ (content s').Perm (content s) := by
+  unfold gstep
+  rw [if_neg (by simp [hs])]
+  simp only
+  rw [if_pos (by omega)]
+  by_cases hr : s.residue = []
+  · rw [if_neg (by simp [hr])]
+    refine ⟨_, rfl, ⟨hI.nodup, fun h => absurd rfl h, fun _ => rfl, fun h => by cases h⟩, rfl, ?_⟩
+    simp [content, hr]
+  · rw [if_pos (by simpa using hr)]
+    obtain ⟨s', h1, h2, h3, h4, h5, h6, h7⟩ :=
+      flush_spec' { s with numModels := s.numModels + 1 } hI.nodup (hI.prev hr) hr
+    rw [h1]
+    refine ⟨_, rfl, ⟨h2, fun h => absurd rfl h, fun _ => rfl, fun h => by cases h⟩, rfl, ?_⟩
+    have : content { s' with stopped := true, residue := [] } = content s' := by
+      simp [content, h3]
+    rw [this]
+    exact h7
+
+def terCount (recs : List Rec) : Nat := (recs.filter (· = .ter)).length
+
+theorem terCount_cons_ter (rs : List Rec) : terCount (.ter :: rs) = terCount rs + 1 := by
+  simp [terCount]
+theorem terCount_cons_of_ne (r : Rec) (rs : List Rec) (h : r ≠ .ter) : terCount (r :: rs) = terCount rs := by
+  simp [terCount, h]
+
+theorem fold_spec (n : Nat) (recs : List Rec) : ∀ s : GState, GInv s → s.stopped = false →
+    (∃ s', recs.foldlM (gstep n) s = .ok s' ∧ GInv s' ∧
+      (content s').Perm (content s ++ firstModel n recs s.numModels s.count)) ∨
+    (recs.foldlM (gstep n) s = .error .tooManyChains ∧ 62 ≤ s.count + terCount recs) := by
+  induction recs with
+  | nil =>
+    intro s hI hs
+    exact Or.inl ⟨s, rfl, hI, by simp [firstModel]⟩
+  | cons r rs ih =>
+    intro s hI hs
+    rw [List.foldlM_cons]
+    cases r with
+    | atom a0 =>
+      rw [terCount_cons_of_ne _ _ (by simp)]
+      rcases gstep_atom n s a0 hs with h | ⟨h, hc⟩
+      · obtain ⟨s1, h1, hI1, hs1, hm1, hc1, hp1⟩ := atomStep_spec s (relabel n s.count a0) hI hs
+        rw [h, h1]
+        rcases ih s1 hI1 hs1 with ⟨s', hf, hI', hp'⟩ | ⟨hf, hc'⟩
+        · refine Or.inl ⟨s', hf, hI', ?_⟩
+          rw [hm1, hc1] at hp'
+          refine hp'.trans ?_
+          simp only [firstModel]
+          refine (List.Perm.append_right _ hp1).trans ?_
+          simp
+        · exact Or.inr ⟨hf, by omega⟩
+      · rw [h]
+        exact Or.inr ⟨rfl, by omega⟩
+    | ter =>
+      rw [gstep_ter n s hs, terCount_cons_ter]
+      have hI1 : GInv { s with count := s.count + 1 } := ⟨hI.nodup, hI.prev, hI.stop, hI.models⟩
+      rcases ih _ hI1 hs with ⟨s', hf, hI', hp'⟩ | ⟨hf, hc'⟩
+      · exact Or.inl ⟨s', hf, hI', hp'⟩
+      · exact Or.inr ⟨hf, by simp only at hc'; omega⟩
+    | end_ =>
+      rw [terCount_cons_of_ne _ _ (by simp)]
+      obtain ⟨s1, h1, hI1, hs1, hm1, hc1, hp1⟩ := gstep_end n s hI hs
+      rw [h1]
+      rcases ih s1 hI1 hs1 with ⟨s', hf, hI', hp'⟩ | ⟨hf, hc'⟩
+      · refine Or.inl ⟨s', hf, hI', ?_⟩
+        rw [hm1, hc1] at hp'
+        exact hp'.trans (List.Perm.append_right _ hp1)
+      · exact Or.inr ⟨hf, by omega⟩
+    | model =>
+      rw [terCount_cons_of_ne _ _ (by simp)]
+      by_cases hm : 1 ≤ s.numModels
+      · obtain ⟨s1, h1, hI1, hs1, hp1⟩ := gstep_model_stop n s hI hs hm
+        rw [h1]
+        refine Or.inl ⟨s1, foldlM_stopped n rs s1 hs1, hI1, ?_⟩
+        simp only [firstModel, ge_iff_le, hm, if_true, List.append_nil]
+        exact hp1
+      · have hm0 : s.numModels = 0 := by omega
+        rw [gstep_model_first n s hs hm0]
+        have hI1 : GInv { s with numModels := s.numModels + 1 } :=
+          ⟨hI.nodup, hI.prev, hI.stop, fun _ => by simp only; omega⟩
+        rcases ih _ hI1 hs with ⟨s', hf, hI', hp'⟩ | ⟨hf, hc'⟩
+        · refine Or.inl ⟨s', hf, hI', ?_⟩
+          simp only [firstModel, ge_iff_le, hm, if_false]
+          exact hp'
+        · exact Or.inr ⟨hf, hc'⟩
+    | other =>
+      rw [terCount_cons_of_ne _ _ (by simp), gstep_other n s hs]
+      rcases ih s hI hs with ⟨s', hf, hI', hp'⟩ | ⟨hf, hc'⟩
+      · exact Or.inl ⟨s', hf, hI', hp'⟩
+      · exact Or.inr ⟨hf, hc'⟩
+
+theorem insertSorted_perm (x : Str × List (List AtomRec)) (l : Chains) : (insertSorted x l).Perm (x :: l) := by
+  induction l with
+  | nil => exact List.Perm.refl _
+  | cons y ys ih =>
+    simp only [insertSorted]
+    split
+    · exact List.Perm.refl _
+    · exact (List.Perm.cons y ih).trans (List.Perm.swap x y ys)
+
+theorem sortChains_fold_perm (cs : Chains) : ∀ acc : Chains,
+    (cs.foldl (fun acc c => insertSorted c acc) acc).Perm (cs ++ acc) := by
+  induction cs with
+  | nil => intro acc; exact List.Perm.refl _
+  | cons c cs ih =>
+    intro acc
+    simp only [List.foldl_cons]
+    refine (ih _).trans ?_
+    refine (List.Perm.append_left cs (insertSorted_perm c acc)).trans ?_
+    simp
+
+theorem sortChains_perm (cs : Chains) : (sortChains cs).Perm cs := by
+  have := sortChains_fold_perm cs []
+  simpa [sortChains] using this
+
+theorem ccontent_perm (a b : Chains) (h : a.Perm b) : (ccontent a).Perm (ccontent b) :=
+  (h.flatMap_right _).flatten
+
+theorem ccontent_rename (cs : Chains) :
+    ccontent (cs.map (fun (k, rs) => (if k = [] then str "ZZ" else k, rs))) = ccontent cs := by
+  induction cs with
+  | nil => rfl
+  | cons x cs ih =>
+    obtain ⟨k, rs⟩ := x
+    simp only [List.map_cons, ccontent_cons, ih]
+
+/-- the tail of `group` after the fold -/
+def finish (s : GState) : Except RErr (List (List AtomRec)) := do
+  let s ← if s.residue ≠ [] && s.numModels ≤ 1 then flush s else pure s
+  let cs := s.chains.map (fun (k, rs) => (if k = [] then str "ZZ" else k, rs))
+  pure ((sortChains cs).flatMap (·.2))
+
+theorem group_eq (recs : List Rec) :
+    group recs = (recs.foldlM (gstep (1 + terCount recs))
+      { chains := [], prev := none, residue := [], numModels := 0, count := 0, stopped := false }).bind finish := rfl
+
+theorem finish_spec (s : GState) (hI : GInv s) :
+    ∃ rs, finish s = .ok rs ∧ rs.flatten.Perm (content s) := by
+  unfold finish
+  have tail : ∀ s' : GState, s'.residue = [] →
+      ((sortChains (s'.chains.map (fun (k, rs) => (if k = [] then str "ZZ" else k, rs)))).flatMap (·.2)).flatten.Perm
+        (content s') := by
+    intro s' hr
+    have h1 := ccontent_perm _ _ (sortChains_perm (s'.chains.map (fun (k, rs) => (if k = [] then str "ZZ" else k, rs))))
+    rw [ccontent_rename] at h1
+    simpa [content, hr, ccontent] using h1
+  by_cases hr : s.residue = []
+  · rw [if_neg (by simp [hr])]
+    exact ⟨_, rfl, tail s hr⟩
+  · have hs : s.stopped = false := by
+      cases h : s.stopped with
+      | false => rfl
+      | true => exact absurd (hI.stop h) hr
+    rw [if_pos (by simp [hr, hI.models hs])]
+    obtain ⟨s', h1, _, h3, _, _, _, h7⟩ := flush_spec s hI hr
+    rw [h1]
+    exact ⟨_, rfl, (tail s' h3).trans h7⟩
+
+theorem init_inv : GInv { chains := [], prev := none, residue := [], numModels := 0, count := 0, stopped := false } :=
+  ⟨by simp, fun h => absurd rfl h, fun _ => rfl, fun _ => Nat.zero_le _⟩
 
 theorem group_complete_core (recs : List Rec) (h : (recs.filter (· = .ter)).length < 62) :
     ∃ rs, group recs = .ok rs ∧
       rs.flatten.Perm (firstModel (1 + (recs.filter (· = .ter)).length) recs 0 0) := by
-  sorry
+  rw [group_eq]
+  rcases fold_spec (1 + terCount recs) recs _ init_inv rfl with ⟨s', hf, hI', hp'⟩ | ⟨hf, hc'⟩
+  · obtain ⟨rs, h1, h2⟩ := finish_spec s' hI'
+    rw [hf]
+    refine ⟨rs, h1, h2.trans ?_⟩
+    simpa [content, terCount] using hp'
+  · exfalso
+    simp only [terCount] at hc'
+    omega
 
 theorem group_error_core (recs : List Rec) (e : RErr) (h : group recs = .error e) :
     e = .tooManyChains := by
-  sorry
+  rw [group_eq] at h
+  rcases fold_spec (1 + terCount recs) recs _ init_inv rfl with ⟨s', hf, hI', hp'⟩ | ⟨hf, hc'⟩
+  · obtain ⟨rs, h1, h2⟩ := finish_spec s' hI'
+    rw [hf] at h
+    change finish s' = _ at h
+    rw [h1] at h
+    cases h
+  · rw [hf] at h
+    cases h
+    rfl
+
+/-! ### de-duplication -/
+
+theorem dedupe_sublist (as : List AtomRec) : (dedupe as).Sublist as := by
+  induction as with
+  | nil => exact List.Sublist.refl _
+  | cons a as ih =>
+    simp only [dedupe]
+    exact List.Sublist.cons_cons _ (List.Sublist.trans List.filter_sublist ih)
+
+theorem dedupe_nodup (as : List AtomRec) : ((dedupe as).map (·.name)).Nodup := by
+  induction as with
+  | nil => simp [dedupe]
+  | cons a as ih =>
+    simp only [dedupe, List.map_cons, List.nodup_cons]
+    constructor
+    · simp [List.mem_map, List.mem_filter]
+    · exact List.Nodup.sublist (List.Sublist.map _ List.filter_sublist) ih
+
+theorem dedupe_find (as : List AtomRec) (n : Str) :
+    (dedupe as).find? (fun a => a.name = n) = as.find? (fun a => a.name = n) := by
+  induction as with
+  | nil => simp [dedupe]
+  | cons a as ih =>
+    simp only [dedupe, List.find?_cons]
+    by_cases h : a.name = n
+    · simp [h]
+    · simp only [h, decide_false]
+      rw [List.find?_filter, ← ih]
+      congr 1
+      funext b
+      by_cases hb : b.name = n
+      · subst hb; simp; exact fun h' => h h'.symm
+      · simp [hb]
 
 theorem dedupe_first_core (as : List AtomRec) :
     ((dedupe as).map (·.name)).Nodup ∧ (dedupe as).Sublist as ∧
-    ∀ n, (dedupe as).find? (fun a => a.name = n) = as.find? (fun a => a.name = n) := by
-  sorry
+    ∀ n, (dedupe as).find? (fun a => a.name = n) = as.find? (fun a => a.name = n) :=
+  ⟨dedupe_nodup as, dedupe_sublist as, dedupe_find as⟩
+
+/-! ### drop_water -/
+
+theorem parseAtom_rtype (het : Bool) (l : Str) (a : AtomRec) (h : parseAtom het l = .ok a) :
+    a.rtype = strip (slice l 0 6) := by
+  unfold parseAtom at h
+  simp only [bind, Except.bind, pure, Except.pure] at h
+  repeat (split at h <;> try contradiction)
+  cases h
+  rfl
+
+theorem dropWhile_idem {α} (p : α → Bool) (l : List α) : (l.dropWhile p).dropWhile p = l.dropWhile p := by
+  induction l with
+  | nil => rfl
+  | cons a l ih =>
+    by_cases h : p a
+    · simp [h, ih]
+    · simp [h]
+
+theorem rstrip_rstrip (s : Str) : rstrip (rstrip s) = rstrip s := by
+  simp [rstrip, dropWhile_idem]
+
+theorem dropWhile_append_single {α} (p : α → Bool) (l : List α) (c : α) (hc : p c = false) :
+    (l ++ [c]).dropWhile p = l.dropWhile p ++ [c] := by
+  induction l with
+  | nil => simp [hc]
+  | cons a l ih =>
+    by_cases h : p a
+    · simp [h, ih]
+    · simp [h]
+
+theorem lstrip_rstrip_of (s : Str) (h : lstrip s = s) : lstrip (rstrip s) = rstrip s := by
+  cases s with
+  | nil => rfl
+  | cons c t =>
+    have hc : isWs c = false := by
+      cases hw : isWs c with
+      | false => rfl
+      | true =>
+        exfalso
+        simp only [lstrip, List.dropWhile_cons, hw, if_true] at h
+        have := List.dropWhile_sublist (l := t) isWs |>.length_le
+        rw [h] at this
+        simp at this
+        omega
+    simp only [rstrip, List.reverse_cons, dropWhile_append_single _ _ _ hc, List.reverse_append,
+      List.reverse_nil, List.nil_append, List.cons_append, lstrip]
+    rw [List.dropWhile_cons_of_neg (by rw [hc]; simp)]
+
+theorem strip_strip (s : Str) : strip (strip s) = strip s := by
+  unfold strip
+  rw [lstrip_rstrip_of (lstrip s) (dropWhile_idem _ _), rstrip_rstrip]
+
+theorem readAtom_ok (line : Str) (a : AtomRec) (h : readAtom line = .ok a) :
+    ∃ het tail, parseAtom het (slice line 0 22 ++ tail) = .ok a := by
+  unfold readAtom at h
+  simp only [bind, Except.bind] at h
+  repeat (split at h <;> try contradiction)
+  exact ⟨_, _, by simpa only [List.append_assoc] using h⟩
+
+theorem slice_append_left (l t : Str) (h : 6 ≤ l.length) : slice (slice l 0 22 ++ t) 0 6 = slice l 0 6 := by
+  simp only [slice, List.drop_zero, Nat.sub_zero]
+  rw [List.take_append_of_le_length (by simp [List.length_take]; omega), List.take_take]
+  simp
+
+theorem readAtom_ATOM : readAtom (str "ATOM") = .error .indexError := by decide +kernel
+theorem readAtom_HETATM : readAtom (str "HETATM") = .error .indexError := by decide +kernel
+
+theorem readAtom_rtype (line : Str) (a : AtomRec) (hs : strip line = line)
+    (hr : strip (slice line 0 6) = str "ATOM" ∨ strip (slice line 0 6) = str "HETATM")
+    (h : readAtom line = .ok a) : a.rtype = strip (slice line 0 6) := by
+  by_cases hl : 6 ≤ line.length
+  · obtain ⟨het, tail, hp⟩ := readAtom_ok line a h
+    rw [parseAtom_rtype _ _ _ hp, slice_append_left _ _ hl]
+  · exfalso
+    have : slice line 0 6 = line := by
+      simp only [slice, List.drop_zero, Nat.sub_zero]
+      exact List.take_of_length_le (by omega)
+    rw [this, hs] at hr
+    rcases hr with hr | hr
+    · rw [hr, readAtom_ATOM] at h; cases h
+    · rw [hr, readAtom_HETATM] at h; cases h
+
+def GoodRec (r : Rec) : Prop := ∀ a, r = .atom a → (a.rtype = str "ATOM" ∨ a.rtype = str "HETATM")
+
+theorem readLoop_good (lines : List Str) : ∀ (m : Bool) (acc recs : List Rec), (∀ r ∈ acc, GoodRec r) →
+    readLoop lines m acc = .ok recs → ∀ r ∈ recs, GoodRec r := by
+  induction lines with
+  | nil =>
+    intro m acc recs hacc h
+    simp only [readLoop] at h
+    cases h
+    intro r hr
+    exact hacc r (List.mem_reverse.mp hr)
+  | cons raw rest ih =>
+    intro m acc recs hacc h
+    rw [readLoop] at h
+    have hcons : ∀ r, GoodRec r → ∀ r' ∈ r :: acc, GoodRec r' := by
+      intro r hr r' hr'
+      rcases List.mem_cons.mp hr' with rfl | h'
+      · exact hr
+      · exact hacc _ h'
+    have hna : ∀ r : Rec, (∀ a, r ≠ .atom a) → GoodRec r := fun r hr a ha => absurd ha (hr a)
+    simp only at h
+    split at h
+    · exact ih m acc recs hacc h
+    split at h
+    · rename_i hrec
+      have hrec' : strip (slice (strip raw) 0 6) = str "ATOM" ∨ strip (slice (strip raw) 0 6) = str "HETATM" := by
+        simpa using hrec
+      split at h
+      · rename_i a hpa
+        refine ih m _ recs (hcons _ ?_) h
+        intro a' ha'
+        cases ha'
+        rw [parseAtom_rtype _ _ _ hpa]; exact hrec'
+      · split at h
+        · rename_i a hra
+          refine ih m _ recs (hcons _ ?_) h
+          intro a' ha'
+          cases ha'
+          rw [readAtom_rtype _ _ (strip_strip raw) hrec' hra]; exact hrec'
+        · exact ih m acc recs hacc h
+        · cases h
+      · cases h
+    split at h
+    · exact ih m _ recs (hcons _ (hna _ (by intro a; simp))) h
+    split at h
+    · exact ih m _ recs (hcons _ (hna _ (by intro a; simp))) h
+    split at h
+    · exact ih m _ recs (hcons _ (hna _ (by intro a; simp))) h
+    · exact ih m _ recs (hcons _ (hna _ (by intro a; simp))) h
 
 theorem dropWater_exact_core (lines : List Str) (recs : List Rec) (h : readPdb lines = .ok recs) :
     dropWater recs = recs.filter (fun r => !isWaterRec r) := by
-  sorry
+  have hg := readLoop_good lines false [] recs (by simp) h
+  unfold dropWater
+  apply List.filter_congr
+  intro r hr
+  cases r with
+  | atom a =>
+    rcases hg _ hr a rfl with h1 | h1 <;> simp [h1, isWaterRec]
+  | _ => rfl
 
 end P2P.Proofs.Pdb
